@@ -1012,19 +1012,20 @@ func vC03ReaderCreationRace(t testing.TB, res *vResult, rnd *vRand) {
 		}
 		var got []int64
 		buf := make([]byte, 28)
-		for len(got) < n {
+		for misses := 0; len(got) < n && misses < 3; {
 			ctx, cancel := context.WithTimeout(context.Background(), 1500*time.Millisecond)
 			_, off, _, _, err := r.ReadMessage(ctx, buf)
 			cancel()
 			if err != nil {
-				break
+				misses++ // (a loaded machine gets three rounds of 1.5 s before "nothing")
+				continue
 			}
 			got = append(got, off)
 		}
 		if len(got) != n {
 			fails++
 			res.Fail(vFailure{Kind: "spec", Case: []string{line}, Tag: "committed-reader-stuck",
-				Detail: fmt.Sprintf("the HW went from %d to %d while the reader was created and has not moved since; the reader delivered [%s] and then nothing for 1.5 s - offsets up to %d are committed", k, n-1, vC03Ranges(got), n-1)})
+				Detail: fmt.Sprintf("the HW went from %d to %d while the reader was created and has not moved since; the reader delivered [%s] and then nothing for 4.5 s - offsets up to %d are committed", k, n-1, vC03Ranges(got), n-1)})
 		}
 		v.close()
 	}
